@@ -23,6 +23,8 @@ type Config struct {
 	Workers       int
 	SolverArgv    []string
 	FallbackArgv  []string
+	CrossEvery    int
+	CrossArgv     [][]string
 	TimeoutMs     int
 	SchedExplore  bool
 	SchedPolicy   string
@@ -974,6 +976,7 @@ func explore(eng *Engine, cfg *Config) *Summary {
 			w := &worker{id: id, eng: eng, cfg: cfg}
 			w.sol = newSolver(cfg.SolverArgv, cfg.TimeoutMs)
 			w.sol.fallback = cfg.FallbackArgv
+			w.sol.crossEvery, w.sol.cross = cfg.CrossEvery, cfg.CrossArgv
 			defer func() {
 				mu.Lock()
 				sum.Solver.add(&w.sol.stats)
